@@ -24,17 +24,18 @@ CfgOf(c) == [cd |-> c.cdt, wg |-> c.wgt, obeyset |-> {TRUE, FALSE},
                        [n |-> c.ws[i].n, ln |-> c.ws[i].ln, np |-> c.ws[i].np, G |-> c.ws[i].Gp, W |-> c.ws[i].Wt, sing |-> c.ws[i].sing,
                         resp |-> c.ws[i].resp, auto |-> c.ws[i].auto, prio |-> c.ws[i].prio, ssig |-> c.ws[i].ssig,
                         sch |-> c.ws[i].sch, hup |-> c.ws[i].hup, hooks |-> c.ws[i].hooks, retry |-> c.ws[i].retry,
-                        ver |-> c.ws[i].ver]]]
+                        ver |-> c.ws[i].ver, od |-> c.ws[i].od]]]
 
 InitState(cfg) ==
   [cfg |-> cfg, now |-> 0, k |-> <<>>,
    ws |-> [i \in 1..Len(cfg.ws) |->
             [st |-> "stopped", rel |-> FALSE, np |-> cfg.ws[i].np, pr |-> <<>>, sing |-> cfg.ws[i].sing, resp |-> cfg.ws[i].resp,
-             od |-> FALSE, G |-> cfg.ws[i].G, W |-> cfg.ws[i].W, ssig |-> cfg.ws[i].ssig, sch |-> cfg.ws[i].sch,
+             od |-> ("od" \in DOMAIN cfg.ws[i] /\ cfg.ws[i].od), G |-> cfg.ws[i].G, W |-> cfg.ws[i].W, ssig |-> cfg.ws[i].ssig, sch |-> cfg.ws[i].sch,
              hup |-> cfg.ws[i].hup]],
    wl |-> [i \in 1..Len(cfg.ws) |-> i], wn |-> <<>>,
    fr |-> [f \in FrameIds |-> NoFrame], cur |-> <<>>, rq |-> <<>>, tm |-> {}, pnext |-> -1, pdue |-> 0,
    slot |-> "", stopping |-> FALSE, restarting |-> FALSE, exited |-> FALSE, creq |-> QuitReq,
+   sockev |-> FALSE, sockready |-> FALSE,
    faults |-> <<>>, blocked |-> 0, out |-> NoLine, lastobs |-> <<>>, cbpend |-> FALSE, pjit |-> FALSE, nreq |-> 0,
    booted |-> FALSE]
 
@@ -132,6 +133,7 @@ Next ==
                  \/ ln.k = "fork" /\ ln.a \in 1..NP(s) /\ s.k[ln.a].st = "run" /\ ln.p = NP(s) + 1
                       /\ \E ob \in BOOLEAN : Consume(Fork(s, ln.a, ob))
                  \/ ln.k = "dsig" /\ Consume(DaemonSignal(s, ln.a))
+                 \/ ln.k = "sockev" /\ Consume(SockReady(s, ln.a = 1))
                  \/ ln.k = "spawnfault" /\ Consume(AddFault(s, ln.r))
                  \/ ln.k \in {"probe", "end"} /\ Consume(EnvLine(s, Line(ln.k, "", 0, 0, "", "")))
 
